@@ -181,14 +181,16 @@ Fixpoint kill_loop (FO : fops) (cells : list cell) (m : Z) (sigma : nat) (a : ve
   end.
 
 (* one simplex of the filtration; sigma = its key = length (s_ann s); returns the new state with the annotation of sigma appended *)
-Definition step (FO : fops) (cells : list cell) (dim_max m : Z) (s : st) (c : cell) : st :=
+Definition step (sw : bool) (FO : fops) (cells : list cell) (dim_max m : Z) (s : st) (c : cell) : st :=
   let sigma := length (s_ann s) in
   match c_dim c with
   | O => mkst (s_ann s ++ [[]]) (s_rows s) (s_comp s ++ [(sigma, sigma)]) (s_pairs s)
   | S O =>
-    (* update_cohomology_groups_edge: endpoints = (last vertex, first vertex) = (second face, first face) *)
-    let v := nth 0 (c_faces c) 0%nat in
-    let u := nth 1 (c_faces c) 0%nat in
+    (* update_cohomology_groups_edge: (u, v) = endpoints(sigma).  Simplex_tree::endpoints = (last vertex, first vertex)
+       = (second facet, first facet) [sw = false]; Hasse_complex and Bitmap_cubical_complex return (first facet,
+       second facet) [sw = true] *)
+    let v := nth (if sw then 1 else 0)%nat (c_faces c) 0%nat in
+    let u := nth (if sw then 0 else 1)%nat (c_faces c) 0%nat in
     let cu := coc s u in
     let cv := coc s v in
     if negb (cu =? cv)%nat then
@@ -212,8 +214,8 @@ Definition step (FO : fops) (cells : list cell) (dim_max m : Z) (s : st) (c : ce
     end
   end.
 
-Definition run (FO : fops) (cells : list cell) (dim_max m : Z) (prefix : list cell) : st :=
-  fold_left (step FO cells dim_max m) prefix st0.
+Definition run (sw : bool) (FO : fops) (cells : list cell) (dim_max m : Z) (prefix : list cell) : st :=
+  fold_left (step sw FO cells dim_max m) prefix st0.
 
 (* the infinite intervals appended at the end: live components (a vertex that is still the creator of its own component), live rows *)
 Definition essential (FO : fops) (s : st) : list (nat * option nat * Z) :=
@@ -223,11 +225,13 @@ Definition essential (FO : fops) (s : st) : list (nat * option nat * Z) :=
 (* compute_persistent_cohomology(m) with persistence_dim_max = flag: the content of persistent_pairs_ (finite intervals in
    emission order, then the infinite ones) *)
 Definition dim_max_of (cells : list cell) (flag : bool) : Z := complex_dim cells + (if flag then 1 else 0).
-Definition pcoh (FO : fops) (cells : list cell) (flag : bool) (m : Z) : list (nat * option nat * Z) :=
+Definition pcoh_gen (sw : bool) (FO : fops) (cells : list cell) (flag : bool) (m : Z) : list (nat * option nat * Z) :=
   let dim_max := dim_max_of cells flag in
   if dim_max <=? 0 then [] else
-  let s := run FO cells dim_max m cells in
+  let s := run sw FO cells dim_max m cells in
   s_pairs s ++ essential FO s.
+(* on a Simplex_tree *)
+Definition pcoh := pcoh_gen false.
 
 (* ------------------------------------------------------------------ (c) read-outs, functions of the pair list *)
 Definition pair := (nat * option nat * Z)%type.
@@ -270,3 +274,14 @@ Fixpoint increasing (s : simplex) : bool :=
   | x :: ((y :: _) as s') => (x <? y) && increasing s'
   | _ => true
   end.
+
+(* ------------------------------------------------------------------ sanity of an input given by facet lists: boundary o boundary = 0 over Z *)
+Definition dd_column (cells : list cell) (c : cell) : list (nat * Z) :=
+  concat (map (fun fs => map (fun gt => (fst gt, snd fs * snd gt)) (bcolumn (nth (fst fs) cells (mkcell 0 [] 0)))) (bcolumn c)).
+Definition dd_zero (cells : list cell) : bool :=
+  forallb (fun c => forallb (fun x => x =? 0) (dense_col (length cells) (dd_column cells c))) cells.
+(* facets earlier, one dimension less, edges with two facets (the hypothesis [valid] of the theorems, decidable form) *)
+Definition valid_b (cells : list cell) : bool :=
+  forallb (fun k => let c := nth k cells (mkcell 0 [] 0) in
+                    forallb (fun f => (f <? k)%nat && (S (dim_of cells f) =? c_dim c)%nat) (c_faces c) &&
+                    (negb (c_dim c =? 1)%nat || (length (c_faces c) =? 2)%nat)) (seq 0 (length cells)).
